@@ -80,6 +80,20 @@ func c06MsmArgs(a *h.DiffArgs, o *h.DiffOut, rist bool) *c06Msm {
 	if m.split < 0 || m.split > m.n {
 		m.split = 0
 	}
+	switch {
+	case m.n < 5:
+		o.Class("terms<5")
+	case m.n < 25:
+		o.Class("terms<25")
+	case m.n < 188:
+		o.Class("terms<188")
+	case m.n < 193:
+		o.Class(fmt.Sprintf("terms=%d(straus/pippenger switch)", m.n))
+	case m.n < 700:
+		o.Class("terms~500(pippenger w=6/7)")
+	default:
+		o.Class("terms~800(pippenger w=7/8)")
+	}
 	d := m.n
 	if d > c06MsmDistinct {
 		d = c06MsmDistinct
